@@ -130,14 +130,24 @@ def _strip_comments(src: str) -> str:
     return "".join(out)
 
 
-def grep_forbidden():
-    """sorry / admit / axiom / native_decide / … outside comments, in every Lean source."""
+def import_closure(prop: str):
+    """Lean source files (inside this project) that Props/<prop>.lean transitively imports."""
+    seen, todo = [], [LEAN / "PdtModel" / "Props" / f"{prop}.lean"]
+    while todo:
+        p = todo.pop()
+        if p in seen or not p.exists():
+            continue
+        seen.append(p)
+        for m in re.finditer(r"^import\s+((?:PdtModel|Drv)[\w.]*)", p.read_text(), re.M):
+            todo.append(LEAN / (m.group(1).replace(".", "/") + ".lean"))
+    return sorted(seen)
+
+
+def grep_forbidden(prop: str):
+    """sorry / admit / axiom / native_decide / … outside comments, in every Lean source the
+    property's theorems depend on (the import closure of Props/<prop>.lean)."""
     hits = []
-    for p in sorted(LEAN.rglob("*.lean")):
-        if ".lake" in p.parts:
-            continue
-        if p.name == "Tool.lean" and p.parent.name == "Audit":
-            continue
+    for p in import_closure(prop):
         code = _strip_comments(p.read_text())
         for n, line in enumerate(code.split("\n"), 1):
             if FORBIDDEN.search(line):
